@@ -363,6 +363,7 @@ def run(repo, rep):
     _lut_functions(repo, rep)
     _boundaries(repo, rep)
     _folding(repo, rep)
+    _round5(repo, rep)
     rep.clause("C19-f", "tables share storage only when they are equal: the equivalence id of a LUT tensor is keyed by the complete value sequence (an injective key, no hash / digest / aggregate)")
     lu = repo.mod("lut")
     ct = lu.func("create_lut_tensor")
@@ -518,3 +519,61 @@ def _folding(repo, rep):
             bad = unrounded_division(c.args[0], c.lineno)
             rep.check(bad is None, "C19-b", site, f"values appended to `{lst.id}` (cast to the output's integer type) are integers or rounded with round_away_zero",
                       f"`{bad}` reaches the integer cast unrounded: np.array(..., int8) truncates toward zero, the reference kernel rounds (folding 2.7 at scale 1 gives 2, reference 3)")
+
+
+def _round5(repo, rep):
+    """(g) the argument a table function is evaluated at is the dequantised input, nothing else: x_real = ifm_scale * (x - zp_in) as a
+    polynomial (no clamp, no other offset); the rsqrt index is max(0, x - zp_in); the LeakyReLU rescale saved by the MUL + MAXIMUM
+    fusion combines the activation's scale with the constant's scale."""
+    from ..exprnorm import poly
+
+    want = {tuple(sorted(("ifm_scale", "x"))): 1, tuple(sorted(("ifm_scale", "zp_in"))): -1}
+    n = 0
+    for mname, fname in (("lut", "create_lut_8bit_op"), ("tflite_graph_optimiser", "convert_to_lut8")):
+        f = repo.mod(mname).func(fname)
+        xs = [st for st in ast.walk(f) if isinstance(st, ast.Assign) and str(norm(st.targets[0])) == "x_real"]
+        if len(xs) != 1:
+            raise AnalysisError(f"{fname}: x_real definition not found")
+        try:
+            got = poly(xs[0].value)
+        except Exception:
+            got = None
+        n += 1
+        rep.check(got == want, "C19-g", f"ethosu/vela/{mname}.py:{fname}", "the table function is evaluated at the dequantised input ifm_scale * (x - zp_in)",
+                  f"x_real = `{str(norm(xs[0].value))}`: inputs are clamped / shifted before the real function is applied, so entries for such codes are not the function's value (e.g. SQRT, LOG, GELU above a cap meant for EXP)")
+    rs = repo.mod("lut").func("create_lut_rsqrt_int8_op")
+    xs = [st for st in ast.walk(rs) if isinstance(st, ast.Assign) and str(norm(st.targets[0])) == "x_real"]
+    if len(xs) != 1:
+        raise AnalysisError("create_lut_rsqrt_int8_op: table index not found")
+    v = xs[0].value
+    inner = None
+    if isinstance(v, ast.Call) and call_name(v) == "max" and len(v.args) == 2:
+        inner = next((a for a in v.args if str(norm(a)) != "0"), None)
+    try:
+        ok = inner is not None and poly(inner) == {("x",): 1, ("zp_in",): -1}
+    except Exception:
+        ok = False
+    n += 1
+    rep.check(ok, "C19-g", "ethosu/vela/lut.py:create_lut_rsqrt_int8_op", "the reference table is indexed with max(0, x - zp_in): the input code relative to its zero point",
+              f"index = `{str(norm(v))}`: for an input zero point other than -128 every entry holds 1/sqrt of the wrong real input")
+    go = repo.mod("tflite_graph_optimiser")
+    cm = go.func("convert_mul_max_to_abs_or_lrelu")
+    calls = [c for c in ast.walk(cm) if isinstance(c, ast.Call) and (call_name(c) or "").endswith("elementwise_mul_scale") and len(c.args) == 3]
+    if len(calls) != 1:
+        raise AnalysisError("convert_mul_max_to_abs_or_lrelu: elementwise_mul_scale call not found")
+    sa = {str(norm(s_.targets[0])): s_.value for s_ in ast.walk(cm) if isinstance(s_, ast.Assign) and len(s_.targets) == 1 and isinstance(s_.targets[0], ast.Name)}
+
+    def root(e):
+        while isinstance(e, ast.Call) and e.args:
+            e = e.args[0]
+        if isinstance(e, ast.Name) and e.id in sa:
+            return root(sa[e.id])
+        t = str(norm(e))
+        return t.split(".quantization")[0] if ".quantization" in t else t
+
+    roots = [root(a) for a in calls[0].args]
+    n += 1
+    rep.check(roots[0] in ("ifm", "shared_in") and roots[1] == "const_tens" and roots[2] == "mul_ofm", "C19-g", "ethosu/vela/tflite_graph_optimiser.py:convert_mul_max_to_abs_or_lrelu",
+              "the saved LeakyReLU rescale is (activation scale x constant scale) / MUL output scale", f"scales are taken from {roots}: with the constant as the first MUL operand the multiplier becomes c_scale^2 / ofm_scale")
+    if n < 4:
+        raise AnalysisError("C19-g round 5: sites missing")
